@@ -42,7 +42,10 @@ PickTpls == { <<TCDollar, TCOpen, TC1, TCClose>>, <<TCDollar, TCOpen, TCx, TCClo
               <<TCDollar, TCOpen, TC1, TCClose, TCx>>, <<TCDollar, TCOpen, TC1>>, <<TCDollar, TCx, TC1>>,
               <<TCDash, TCDollar, TC1, TCDash, TCDollar, TC2, TCDash>>, <<TCDollar, TCDollar, TC1>>,
               <<TCDollar, TCOpen, TCx, TCClose, TCDollar, TCOpen, TC1, TCClose>>, <<TCDollar, TC1, TCa>>, <<TCDollar, TCOpen, TC2, TCClose, TCDash>>,
-              <<TCDollar, TC1, TC0>>, <<TCDollar, TCOpen, TCClose>> }
+              <<TCDollar, TC1, TC0>>, <<TCDollar, TCOpen, TCClose>>,
+              \* the underscore is a name character: $1_ and $x_ name groups that do not exist, ${1}_ does not
+              <<TCDollar, TC1, TCUnd>>, <<TCDollar, TCx, TCUnd>>, <<TCDollar, TCOpen, TCx, TCUnd, TCClose>>,
+              <<TCDollar, TCOpen, TC1, TCClose, TCUnd>>, <<TCDollar, TCUnd, TC1>>, <<TCDollar, TC1, TCUnd, TCDollar, TC2>> }
 
 Opt(ci, word, line, crlf, inv) == [ci |-> ci, smart |-> FALSE, word |-> word, line |-> line, crlf |-> crlf, nul |-> FALSE, inv |-> inv, dotall |-> FALSE]
 Plain == Opt(FALSE, FALSE, FALSE, FALSE, FALSE)
